@@ -308,13 +308,27 @@ Proof.
   apply N.eqb_neq. intro E. pose proof (atom_byte_ok b (Ha b (or_introl eq_refl))) as H. rewrite E in H. discriminate H.
 Qed.
 
+(* exactly which flag tokens are refused: a backslash followed by an atom that is "recent" in any letter case - nothing else *)
+Lemma flag_token : forall (bsl : bool) a rest, EncAtom a a -> is_atom_char (cur_tok rest) = false ->
+  p_flag ((if bsl then [92] else []) ++ a ++ rest) =
+    if bsl && bytes_eqb (lower a) (s2b "recent") then RErr EParse rest
+    else ROk ((if bsl then [92] else []) ++ a) rest.
+Proof.
+  intros bsl a rest Ha Hr. unfold p_flag. rewrite recent_only_with_backslash.
+  destruct bsl; cbn [app].
+  - cbv beta iota; erewrite bind_ok; [|apply matchb_yes; reflexivity].
+    cbv beta iota; erewrite bind_ok; [|apply atom_rt; eassumption]. cbv beta. cbn [negb orb andb].
+    destruct (bytes_eqb (lower a) (s2b "recent")); reflexivity.
+  - cbv beta iota; erewrite bind_ok; [|apply matchb_no; apply atom_first_not_backslash; exact Ha].
+    cbv beta iota; erewrite bind_ok; [|apply atom_rt; eassumption]. cbv beta. cbn [negb orb andb]. reflexivity.
+Qed.
+
 Lemma flag_rt : forall f bs rest, EncFlag f bs -> is_atom_char (cur_tok rest) = false ->
   p_flag (bs ++ rest) = ROk f rest.
 Proof.
-  intros f bs rest (-> & [H|(a & -> & H & Hr)]) Hf; unfold p_flag.
-  - cbv beta iota; erewrite bind_ok; [|apply matchb_no; apply atom_first_not_backslash; exact H]. cbv beta iota.
-    apply atom_rt; assumption.
-  - cbn [app]. cbv beta iota; erewrite bind_ok; [|apply matchb_yes; reflexivity]. cbv beta iota; erewrite bind_ok; [|apply atom_rt; eassumption]. cbv beta. rewrite Hr. reflexivity.
+  intros f bs rest (-> & [H|(a & -> & H & Hr)]) Hf.
+  - pose proof (flag_token false f rest H Hf) as T. cbn [app andb] in T. exact T.
+  - pose proof (flag_token true a rest H Hf) as T. cbn [app andb] in T. rewrite Hr in T. exact T.
 Qed.
 
 (* ------------------------------------------------------------------ separated lists *)
